@@ -11,17 +11,17 @@ def main():
     mod = importlib.import_module(modname)
     dsl.load_spec_sources(mod)
     prog = Program()
-    for fid, c in dsl.REGISTRY.items():
+    for fid, c in list(dsl.REGISTRY.items()):
         if filt not in fid:
             continue
         ex = PureExecutor(prog, dsl.REGISTRY, dsl.SPEC_SOURCES)
-        fv = FunctionVerifier(ex, prog.func(fid), c)
+        fv = FunctionVerifier(ex, prog.func(c.base_fid), c, timeout_s=20)
         t0 = time.time()
         obs = fv.run()
         print('==', fid, 'paths', fv.paths, 'wall %.1fs' % (time.time() - t0))
         for ob in obs:
-            print('  %-60s %-10s %-12s %5dms  %s' % (ob.name.split('::')[1], ob.verdict, ob.backend, ob.ms, ob.detail[:150]))
+            print('  %-60s %-10s %-12s %5dms  %s' % (ob.name.split('::')[1][:60], ob.verdict, ob.backend, ob.ms, ob.detail[:150]))
             if ob.verdict == 'refuted':
-                print('      model:', decode_model(ob.model, fv.fi.params))
+                print('      model:', decode_model(ob.model, list(fv.params)))
 
 main()
